@@ -933,6 +933,10 @@ class Expander:
                     # pad(X, ((0, n), (0, 0))) with the default constant 0 is concatenate((X, zeros((n, X.shape[1]))))
                     if f.attr == "vstack" and len(args) == 1 and not kw:
                         return T("mcall", "concatenate", [recv, args[0]], {"axis": T("const", 0)}, node=e)
+                    # take(A, I, axis=0) is A[I]; without an axis only for an operand that is one-dimensional by construction
+                    if f.attr == "take" and len(args) == 2 and (
+                            (set(kw) == {"axis"} and kw["axis"].op == "const" and kw["axis"].name == 0) or (not kw and _one_dimensional(args[0]))):
+                        return T("sub", None, [args[0], args[1]], node=e)
                     if f.attr == "pad" and len(args) == 2 and (not kw or (set(kw) == {"mode"} and kw["mode"].op == "const" and kw["mode"].name == "constant")):
                         w = args[1]
                         z = lambda x: x.op == "const" and x.name == 0
@@ -1005,6 +1009,20 @@ class Expander:
         if isinstance(e, ast.NamedExpr):
             return self._tr(e.value)
         return T("expr", type(e).__name__, [], node=e)
+
+
+def _one_dimensional(t: "T") -> bool:
+    """the array is one-dimensional whatever its inputs: a draw / counter / index list with a scalar size, a flattened array,
+    or a row selection `X[I]` / reordering of such an array"""
+    while t.op == "sub" and len(t.args) == 2 and t.args[1].op not in ("tuple", "const", "slice"):
+        t = t.args[0]
+    if t.op == "mcall" and t.name in ("ravel", "flatten", "flatnonzero", "arange") or \
+            (t.op == "mcall" and t.name in ("cumsum", "unique") and "axis" not in t.kw):
+        return True
+    if t.op == "mcall" and t.name in ("choice", "permutation", "binomial", "randint"):
+        sz = t.kw.get("size")
+        return sz is not None and sz.op not in ("tuple", "list")
+    return False
 
 
 def _index_comp(body: "T", it: "T"):
